@@ -38,7 +38,7 @@ func (h *ConnectionsHandler) ServeHTTP(resp http.ResponseWriter, req *http.Reque
 			response.Items,
 			&Connection{
 				ID:            int(conn.GetID()),
-				Vhost:         conn.GetVirtualHost().GetName(),
+				Vhost:         vhostName(conn),
 				Addr:          conn.GetRemoteAddr().String(),
 				ChannelsCount: len(conn.GetChannels()),
 				User:          conn.GetUsername(),
